@@ -84,6 +84,12 @@ type Exec struct {
 	curFrame   *frame
 	observes   []string
 	inTolerantInit bool
+	aliases    map[*Object][]aliasRec
+}
+
+type aliasRec struct {
+	off int
+	b   []*Term
 }
 
 type fact struct {
@@ -201,6 +207,15 @@ func (ex *Exec) store(p Ptr, nv Value) {
 		ex.goPanicf("invalid memory address or nil pointer dereference")
 	}
 	root := ex.objVal(p.Obj)
+	if recs, ok := ex.aliases[p.Obj]; ok && len(p.Path) == 1 {
+		if t, isT := nv.(*Term); isT {
+			for _, r := range recs {
+				if i := p.Path[0] - r.off; i >= 0 && i < len(r.b) {
+					r.b[i] = t
+				}
+			}
+		}
+	}
 	if a, ok := root.(*ArrayVal); ok && len(p.Path) == 1 && !p.Obj.Base {
 		a.E[p.Path[0]] = nv
 		return
